@@ -13,6 +13,7 @@
 use crate::loopback::{Bridge, LoopbackClient};
 use crate::sched::Scheduler;
 use crate::world::*;
+use sos_sync::StorageEventLogs;
 use serde_json::json;
 use sos_account::{Account, LocalAccount};
 use sos_backend::{BackendTarget, Preferences, ServerOrigins};
@@ -51,6 +52,20 @@ struct Before {
     prefs: BTreeMap<String, String>,
     servers: BTreeSet<String>,
     attachments: BTreeMap<sos_core::SecretId, Vec<u8>>,
+    /// every blob the file log names: (folder, secret, name) -> sha256 of the stored (encrypted) bytes
+    blobs: BTreeMap<String, Option<[u8; 32]>>,
+}
+
+/// Blobs named by the account's file log with a digest of what is on disc (None: missing).
+async fn blob_digests(account: &LocalAccount) -> Result<BTreeMap<String, Option<[u8; 32]>>, String> {
+    let files = account.canonical_files().await.map_err(|e| format!("canonical_files: {e}"))?;
+    let paths = account.paths();
+    let mut out = BTreeMap::new();
+    for f in files {
+        let p = paths.into_file_path(&f);
+        out.insert(format!("{}/{}/{}", f.vault_id(), f.secret_id(), f.file_name()), std::fs::read(&p).ok().map(|b| vkit::sha256(&b)));
+    }
+    Ok(out)
 }
 
 async fn capture(account: &mut LocalAccount, target: &BackendTarget, account_id: &AccountId, attachments: BTreeMap<sos_core::SecretId, Vec<u8>>) -> Result<Before, String> {
@@ -70,7 +85,8 @@ async fn capture(account: &mut LocalAccount, target: &BackendTarget, account_id:
         }
     };
     let servers = ServerOrigins::new(target.clone(), account_id).list_servers().await.map_err(|e| format!("servers: {e}"))?.iter().map(|o| o.url().to_string()).collect();
-    Ok(Before { status, view, devices, prefs, servers, attachments })
+    let blobs = blob_digests(account).await?;
+    Ok(Before { status, view, devices, prefs, servers, attachments, blobs })
 }
 
 pub async fn run(args: &Args, rep: &mut Reporter) {
@@ -100,6 +116,7 @@ pub async fn run(args: &Args, rep: &mut Reporter) {
         // ---- history on the file-system account ----------------------------------------
         let mut weights = Weights::c01();
         weights.file_create = 6;
+        weights.file_attach = 6;
         weights.delete_folder = 3;
         weights.create_folder = 5;
         weights.flags = 5;
@@ -258,6 +275,36 @@ pub async fn run(args: &Args, rep: &mut Reporter) {
                                     }
                                     if b.servers != after.servers {
                                         rep.violation(&format!("C19:{which}:server_list_differs"), &format!("server list before {:?} after {:?}", b.servers, after.servers), ctx.clone());
+                                    }
+                                    // every blob the file log names is there with the same bytes
+                                    match blob_digests(&o.account).await {
+                                        Ok(now) => {
+                                            rep.count("blobs_compared", b.blobs.len() as u64);
+                                            let mut per_secret: BTreeMap<&str, usize> = BTreeMap::new();
+                                            for k in b.blobs.keys() {
+                                                *per_secret.entry(&k[..73.min(k.len())]).or_insert(0) += 1;
+                                            }
+                                            rep.count("secrets_with_several_blobs", per_secret.values().filter(|n| **n > 1).count() as u64);
+                                            for (k, d) in &b.blobs {
+                                                let Some(d) = d else {
+                                                    // not on disc before the upgrade either (not this property's question)
+                                                    rep.count("blobs_missing_before_upgrade", 1);
+                                                    continue;
+                                                };
+                                                match now.get(k) {
+                                                    Some(Some(d2)) if d2 == d => {}
+                                                    Some(Some(_)) => rep.violation(&format!("C19:{which}:blob_differs"), &format!("blob {k} has different bytes after the upgrade"), ctx.clone()),
+                                                    Some(None) => rep.violation(&format!("C19:{which}:blob_missing"), &format!("blob {k} named by the file log is missing after the upgrade"), ctx.clone()),
+                                                    None => rep.violation(&format!("C19:{which}:blob_not_in_file_log"), &format!("blob {k} is no longer named by the file log after the upgrade"), ctx.clone()),
+                                                }
+                                            }
+                                            for k in now.keys() {
+                                                if !b.blobs.contains_key(k) {
+                                                    rep.violation(&format!("C19:{which}:blob_invented"), &format!("the upgraded account names a blob {k} the source did not"), ctx.clone());
+                                                }
+                                            }
+                                        }
+                                        Err(e) => rep.violation(&format!("C19:{which}:file_log_unreadable"), &format!("after the upgrade: {e}"), ctx.clone()),
                                     }
                                     // attachments
                                     for (fid, fv) in &after.view.folders {
